@@ -43,6 +43,10 @@ fn alphabet(first_ttl: u8) -> Vec<Shape> {
     ] {
         v.push(Shape { first_ttl, outs, largest_ttl: None });
     }
+    // carried target distance (strategy.rs publish_trace): nothing, or only the first hop, answers
+    // in a round that is still published with path length 3
+    v.push(Shape { first_ttl, outs: vec![Out::A, Out::A, Out::A], largest_ttl: Some(first_ttl + 2) });
+    v.push(Shape { first_ttl, outs: vec![c(1), Out::A, Out::A], largest_ttl: Some(first_ttl + 2) });
     v
 }
 
